@@ -12,7 +12,7 @@ core.import_dfols()
 PROP = "C08"
 LEVEL = "fault_enumeration"
 KINDS = ["nan", "inf", "-inf", "big", "raise", "raise-linalg", "raise-value", "raise-overflow"]
-RULE = ("Fault enumeration. A committed catalogue of 14 scenarios (plain, bounds, scaled, one and two projections, "
+RULE = ("Fault enumeration. A committed catalogue of 15 scenarios (plain, plain with solve's progress table switched on, bounds, scaled, one and two projections, "
         "regression npt=2n+1, growing, soft restart, hard restart with and without old r_k, averaging x2, regulariser, growing + soft restart); "
         "for each a fault-free reference run gives nf and then EVERY evaluation index k=1..nf x EVERY fault kind "
         "{NaN, +inf, -inf, 1e200, raised exception of a user-defined class, LinAlgError, ValueError, OverflowError (the classes dfols' own handlers catch)} is executed (all components faulty, plus 'every evaluation >= k' for k <= 3; thorough adds one-component variants "
@@ -51,11 +51,12 @@ CATALOGUE = [
     ("averaging-const", mk(2, "hashed", nsamples={"const": 2}, maxfun=36)),
     ("averaging-table", mk(2, "sinlin", nsamples={"table": [[1, 2, 3], [2, 1, 1]]}, noise={"seed": 5, "mult": 1e-2, "add": 1e-3}, maxfun=36)),
     ("regulariser", mk(2, "lin", reg={"kind": "l1", "lam": 0.1, "conv": "closure"}, maxfun=12, up={"func_tol.max_iters": 25})),
+    ("print-progress", mk(2, "sinlin", print_progress=True, maxfun=25)),
     ("growing-soft-restart", mk(3, "hashed", up={"growing.ndirs_initial": 1, "restarts.use_restarts": True}, noise_flag=True, rhoend=1e-2, maxfun=30)),
 ]
 
 GEN_PROF = sc.make_prof(fams=["lin", "sinlin", "hashed", "script", "rosen"], nmax=3, mmax=4,
-                        maxfuns=[3, "npt", "npt+1", 10, 20, 30, 45], diag=0.1, reg=0.03, zero_resid=0.05, place_full=False)
+                        maxfuns=[3, "npt", "npt+1", 10, 20, 30, 45], diag=0.1, reg=0.03, zero_resid=0.05, place_full=False, print_progress=0.12)
 
 
 def reference_nf(scen):
